@@ -528,6 +528,10 @@ func (i *interpreter) registerIntrinsics() {
 	in["strconv.Itoa"] = symOrReal(func(fr *frame, args []value) value { return &symStr{b: []value{opaque{}}} })
 	in["strconv.FormatInt"] = symOrReal(func(fr *frame, args []value) value { return &symStr{b: []value{opaque{}}} })
 	in["strconv.FormatUint"] = symOrReal(func(fr *frame, args []value) value { return &symStr{b: []value{opaque{}}} })
+	for _, n := range []string{"Havoc/pkg/common.ByteCountSI", "Havoc/pkg/utils.ByteCountSI"} {
+		in[n] = symOrReal(func(fr *frame, args []value) value { return &symStr{b: []value{opaque{}}} })
+	}
+	in["Havoc/pkg/common.PercentageChange"] = symOrReal(func(fr *frame, args []value) value { return float64(0) })
 	in["encoding/json.Marshal"] = func(fr *frame, args []value) value {
 		fr.i.noteStub("opaque:encoding/json.Marshal")
 		return tuple{[]value{opaque{}}, iface{}}
